@@ -1,5 +1,8 @@
 import AvoVerif.Drv.C01
 import AvoVerif.Drv.C02
--- C01's driver also answers C02's instruction-level acceptor: the use/def sets the allocator relies on are
--- cross-checked against the specification derived from the form's operand actions.
-def main : IO Unit := Avo.Drv.mainLoop (Avo.Drv.C01.handlers ++ Avo.Drv.C02.handlers.filter (fun h => h.1 == "accept-usedef"))
+import AvoVerif.Drv.C09
+-- C01's driver also answers C02's instruction-level acceptor (the use/def sets the allocator relies on are
+-- cross-checked against the specification derived from the form's operand actions) and C09's acceptor (the
+-- control-flow graph against the opcode-derived specification).
+def main : IO Unit := Avo.Drv.mainLoop (Avo.Drv.C01.handlers ++ Avo.Drv.C02.handlers.filter (fun h => h.1 == "accept-usedef")
+  ++ Avo.Drv.C09.handlers.filter (fun h => h.1 == "accept-cfg"))
